@@ -195,4 +195,60 @@ theorem filter_not_length {α} (l : List α) (p : α → Bool) :
     simp only [List.filter_cons]
     cases p a <;> simp <;> omega
 
+
+/-- `t` steps from `h` in direction `d` -/
+def hexStep (h d : HexCell) (t : Int) : HexCell := (h.1 + t * d.1, h.2.1 + t * d.2.1, h.2.2 + t * d.2.2)
+
+theorem hexStep_zero (h d : HexCell) : hexStep h d 0 = h := by
+  simp [hexStep]
+
+theorem hexStep_neighbor (h : HexCell) (i : Nat) (t : Int) :
+    hexStep (hexNeighbor h i) (Gen.hexDirections.getD i (0, 0, 0)) t = hexStep h (Gen.hexDirections.getD i (0, 0, 0)) (t + 1) := by
+  simp only [hexStep, hexNeighbor, Gen.hexAdd, Int.add_mul, Int.one_mul, Prod.mk.injEq]
+  omega
+
+theorem walkSide_spec (i n : Nat) (acc : List HexCell) (h : HexCell) :
+    walkSide i n acc h =
+      (acc ++ (List.range n).map (fun (t : Nat) => hexStep h (Gen.hexDirections.getD i (0, 0, 0)) t),
+       hexStep h (Gen.hexDirections.getD i (0, 0, 0)) n) := by
+  induction n generalizing acc h with
+  | zero => simp [walkSide, hexStep_zero]
+  | succ n ih =>
+    simp only [walkSide]
+    rw [ih, List.range_succ_eq_map]
+    have h0 : hexStep h (Gen.hexDirections.getD i (0, 0, 0)) ((0 : Nat) : Int) = h := hexStep_zero h _
+    have hm : List.map (fun (t : Nat) => hexStep (hexNeighbor h i) (Gen.hexDirections.getD i (0, 0, 0)) t) (List.range n)
+        = List.map ((fun (t : Nat) => hexStep h (Gen.hexDirections.getD i (0, 0, 0)) t) ∘ Nat.succ) (List.range n) := by
+      apply List.map_congr_left
+      intro t _
+      simp only [Function.comp, Nat.succ_eq_add_one, Int.natCast_add, Int.natCast_one]
+      exact hexStep_neighbor h i t
+    refine Prod.ext ?_ ?_
+    · simp only [List.map_cons, List.map_map, List.append_assoc, List.singleton_append, h0, hm]
+    · simp only [Int.natCast_add, Int.natCast_one]
+      exact hexStep_neighbor h i n
+
+
+theorem hexRing_mem (k : Nat) (c : HexCell) (hc : c ∈ hexRing k) :
+    ∃ t : Nat, t < k ∧
+      (c = (-(k : Int) + t, (k : Int), -(t : Int)) ∨ c = ((t : Int), (k : Int) - t, -(k : Int)) ∨
+       c = ((k : Int), -(t : Int), -(k : Int) + t) ∨ c = ((k : Int) - t, -(k : Int), (t : Int)) ∨
+       c = (-(t : Int), -(k : Int) + t, (k : Int)) ∨ c = (-(k : Int), (t : Int), (k : Int) - t)) := by
+  have d0 : Gen.hexDirections.getD 0 (0, 0, 0) = (1, 0, -1) := rfl
+  have d1 : Gen.hexDirections.getD 1 (0, 0, 0) = (1, -1, 0) := rfl
+  have d2 : Gen.hexDirections.getD 2 (0, 0, 0) = (0, -1, 1) := rfl
+  have d3 : Gen.hexDirections.getD 3 (0, 0, 0) = (-1, 0, 1) := rfl
+  have d4 : Gen.hexDirections.getD 4 (0, 0, 0) = (-1, 1, 0) := rfl
+  have d5 : Gen.hexDirections.getD 5 (0, 0, 0) = (0, 1, -1) := rfl
+  unfold hexRing at hc
+  simp only [walkSides, walkSide_spec, d0, d1, d2, d3, d4, d5, Gen.hexRingStart, hexStep, List.nil_append,
+    List.mem_append, List.mem_map, List.mem_range, Int.mul_one, Int.mul_zero, Int.mul_neg, Int.add_zero, Int.zero_add] at hc
+  rcases hc with ((((⟨t, ht, e⟩ | ⟨t, ht, e⟩) | ⟨t, ht, e⟩) | ⟨t, ht, e⟩) | ⟨t, ht, e⟩) | ⟨t, ht, e⟩
+  · exact ⟨t, ht, Or.inl e.symm⟩
+  · exact ⟨t, ht, Or.inr (Or.inl (by rw [← e]; refine Prod.ext (by first | rfl | (simp only; omega)) (Prod.ext (by first | rfl | (simp only; omega)) (by first | rfl | (simp only; omega)))))⟩
+  · exact ⟨t, ht, Or.inr (Or.inr (Or.inl (by rw [← e]; refine Prod.ext (by first | rfl | (simp only; omega)) (Prod.ext (by first | rfl | (simp only; omega)) (by first | rfl | (simp only; omega))))))⟩
+  · exact ⟨t, ht, Or.inr (Or.inr (Or.inr (Or.inl (by rw [← e]; refine Prod.ext (by first | rfl | (simp only; omega)) (Prod.ext (by first | rfl | (simp only; omega)) (by first | rfl | (simp only; omega)))))))⟩
+  · exact ⟨t, ht, Or.inr (Or.inr (Or.inr (Or.inr (Or.inl (by rw [← e]; refine Prod.ext (by first | rfl | (simp only; omega)) (Prod.ext (by first | rfl | (simp only; omega)) (by first | rfl | (simp only; omega))))))))⟩
+  · exact ⟨t, ht, Or.inr (Or.inr (Or.inr (Or.inr (Or.inr (by rw [← e]; refine Prod.ext (by first | rfl | (simp only; omega)) (Prod.ext (by first | rfl | (simp only; omega)) (by first | rfl | (simp only; omega))))))))⟩
+
 end Lentil
